@@ -113,5 +113,11 @@ Example C04_joins_hypotheses_met :
   rot_loc 4 10 l = Ok (Complemented (Joined [Ranged 5 7 true false; Ranged 9 10 false false; Ranged 0 2 false false; Ranged 3 4 false true])).
 Proof. vm_compute. split; reflexivity. Qed.
 
+(* a sequence without residues is returned as it is, whatever the amount
+   (before the fix b690083 the code divided by zero here, and every theorem
+   above carries 0 < L) *)
+Theorem C04_empty_sequence : forall ff n, seq_rotate (mkseq ff []) n = Ok (mkseq ff []).
+Proof. intros ff n. reflexivity. Qed.
+
 Example C04_example : rotate_bytes [97; 98; 99; 100; 101] (- 7) = Ok [99; 100; 101; 97; 98].
 Proof. vm_compute. reflexivity. Qed.
